@@ -1,4 +1,6 @@
 import Proofs.Lemmas.Gen
+import Proofs.Lemmas.GenFacts
+import Generated.C19Generics
 /-!
 # C19 — a generic instantiation enforces its own type arguments, whatever came before
 
@@ -216,5 +218,227 @@ example : arityOk decls₀ 0 [.int] = true ∧
       Op.instAt 7 0 [.int] :: histS.drop 4 := by decide
 /- `C19_alone` with `o` the third execution of node 7 -/
 example : creates decls₀ (Op.instAt 7 0 [.int]) = some ⟨0, some [.int]⟩ := by decide
+
+/-! ## Regenerated facts (tie)
+
+`extract/c19` regenerates `Generated.C19` from the source on every run: what `ClassGeneric.Clone` does with
+each field and what it returns, every write of a `ClassGeneric` method, every read of the type-argument map,
+every write to a field of an AST node of the instantiation / typed-store / call path and the discipline of
+the functions that keep such state, every type check of that path, the way a written type argument reaches
+`data.NewBaseType`, the switch of `NewBaseType`, the name comparisons of `data.Class.Is`.
+
+For each group: a generic theorem (for EVERY table: a well-formed table selects the piece of `Model.Gen` the
+property theorems above are about), the obligation on the regenerated table (`decide`), a negation witness
+(a realistic ill-formed table on which the guarantee fails). -/
+section Tie
+open Model.GenFacts Proofs.GenFacts
+
+/-- the translator found every syntactic shape it relies on -/
+theorem C19_gen_shape : Generated.C19.shapeChanged = [] := by decide
+
+/-! ### A. `Clone`: what is per instantiation -/
+
+/-- **Generic.** For every field table and every list of `Clone` returns that satisfy `CloneWF`: after any
+sequence of instantiations and lookups, whatever tables the class objects memoise in, every lookup is
+`Model.Gen.getProperty` with the class object's own type-argument map (what `Model.Gen.writeOut` uses), and
+every request `Clone(args)` gets an instantiation with exactly `args`, whatever key a memo might use. -/
+theorem C19_clone_discipline_generic (fs : List Field) (rets : List Ret) (hwf : CloneWF fs rets = true)
+    (c : Class) (ops : List TOp) {K : Type} [DecidableEq K] (key : List Ty → K) (reqs : List (List Ty)) :
+    trunOf fs c ops = tspec c [GMap.empty] ops ∧ cloneRunOf rets key reqs = reqs := by
+  unfold CloneWF at hwf
+  simp only [Bool.and_eq_true, Bool.not_eq_true'] at hwf
+  obtain ⟨⟨⟨_, hs⟩, _⟩, hm⟩ := hwf
+  exact ⟨trunOf_eq_spec fs hs c ops, by simp [cloneRunOf, hm]⟩
+
+/-- a memoised `Clone` is harmless exactly when its key separates argument lists -/
+theorem C19_clone_memo_generic (rets : List Ret) {K : Type} [DecidableEq K] (key : List Ty → K)
+    (hinj : ∀ a b, key a = key b → a = b) (reqs : List (List Ty)) : cloneRunOf rets key reqs = reqs := by
+  unfold cloneRunOf
+  split
+  · exact cloneRun_inj key hinj reqs [] (by simp)
+  · rfl
+
+/-- **Obligation.** `Clone` as it is in the source: a fresh object, the map from the parameter, nothing
+written after construction is taken over from the receiver, the map is written nowhere else. -/
+theorem C19_clone_obligation :
+    CloneWF Generated.C19.classFields Generated.C19.cloneReturns = true ∧ Generated.C19.tyargWrites = [] := by
+  decide
+
+/-- the table of seed `C19-clone-shallow-copy-typed-table`: a lazily filled `typed` table, `inst := *c` -/
+def shallowFields : List Field :=
+  [⟨"ClassStatement", "*ClassStatement", .decl, .receiver, false⟩, ⟨"Generic", "[]data.Types", .params, .receiver, false⟩,
+   ⟨"GenericMap", "map[string]data.Types", .tyargs, .param, false⟩,
+   ⟨"typed", "map[string]data.Property", .aux, .receiver, true⟩]
+
+/-- **Negation witness.** With that table a raw `new Box()` touches member 0, then `Box<int>` is resolved:
+its lookup answers "unchecked" where its own map says `int`. -/
+theorem C19_clone_shallow_copy_witness :
+    CloneWF shallowFields [.fresh] = false ∧
+    trunOf shallowFields box [.lookup 0 0, .clone (GMap.empty.set 0 .int), .lookup 1 0] =
+      [some (some none), none, some (some none)] ∧
+    tspec box [GMap.empty] [.lookup 0 0, .clone (GMap.empty.set 0 .int), .lookup 1 0] =
+      [some (some none), none, some (some (some .int))] := by decide
+
+/-- **Negation witness** (seed `C19-clone-memo-sorted-key`): a memo keyed by the sorted argument names hands
+`Pair<string,int>` the instantiation made for `Pair<int,string>`. -/
+theorem C19_clone_sorted_key_witness :
+    CloneWF Generated.C19.classFields [.stored, .fresh] = false ∧
+    cloneRunOf [.stored, .fresh] sortedKey [[.int, .string], [.string, .int]] = [[.int, .string], [.int, .string]] := by
+  decide
+
+/-- **Generic / obligation.** Every read of the type-argument map sees the map of the class object the
+operation is about. -/
+theorem C19_lookups_generic (l : Lookup) (h : l.ok = true) (own kept : GMap) : l.map own kept = own := by
+  unfold Lookup.ok at h
+  simp only [Bool.and_eq_true] at h
+  simp [Lookup.map, h.1]
+
+theorem C19_lookups_obligation :
+    Generated.C19.lookups.all Lookup.ok = true ∧ Generated.C19.lookups.isEmpty = false := by decide
+
+/-! ### C. AST nodes that keep state -/
+
+/-- **Generic.** A node whose text denotes `spec` (≠ the registered class `raw`) hands out `spec` on every
+one of its executions iff its resolver is well-formed. -/
+theorem C19_node_cache_generic {α : Type} (r : Resolver) (raw spec : α) (hne : raw ≠ spec) :
+    (∀ n, ∀ x ∈ nodeRuns r raw spec n none, x = spec) ↔ r.ok = true := by
+  constructor
+  · intro h
+    cases hr : r.ok with
+    | true => rfl
+    | false =>
+      have := h 2 raw (by rw [nodeRuns_bad r hr]; simp)
+      exact absurd this hne
+  · intro hr n
+    exact nodeRuns_ok r hr raw spec n none (fun _ => Or.inl rfl)
+
+/-- **Generic.** Well-formed node facts: the only node state is the one `Model.Gen.State.cache` models, and
+every function that keeps it hands out the node's own class on every execution. -/
+theorem C19_nodes_generic (ws : List NodeWrite) (rs : List Resolver) (pk : List String)
+    (h : NodesWF ws rs pk = true) :
+    (∀ w ∈ ws, (w.node, w.field) ∈ modelledNodeState) ∧
+    (∀ r ∈ rs, ∀ (raw spec : Inst) (n : Nat), ∀ x ∈ nodeRuns r raw spec n none, x = spec) := by
+  simp only [NodesWF, Bool.and_eq_true, List.all_eq_true, List.contains_iff_mem] at h
+  obtain ⟨⟨hw, hr⟩, _⟩ := h
+  exact ⟨fun w hw' => (hw w hw').1, fun r hr' raw spec n =>
+    nodeRuns_ok r (hr r hr').2 raw spec n none (fun _ => Or.inl rfl)⟩
+
+/-- the discipline "read back, store what is returned" selects `Model.Gen.resolveAt` literally -/
+theorem C19_resolver_is_model (r : Resolver) (h1 : r.cacheRead = true) (h2 : r.stored = .returned) :
+    resolveAtR r = resolveAt := resolveAtR_eq r h1 h2
+
+/-- **Obligation.** -/
+theorem C19_nodes_obligation :
+    NodesWF Generated.C19.nodeWrites Generated.C19.resolvers Generated.C19.pkgStateWrites = true := by decide
+
+/-- the resolver of seed `C19-generic-new-cache-raw-class`: the node keeps what a callee stored -/
+def rawResolver : Resolver := ⟨"NewExpression", "class", "NewClassGenerated.resolveClass", true, .other, true⟩
+
+/-- **Negation witness.** Under that resolver the second object of one `new Box<int>()` node accepts a
+string; the specification (and the first object) reject it. -/
+theorem C19_raw_class_cached_witness :
+    rawResolver.ok = false ∧
+    (let s1 := (instAtR rawResolver (init [box]) 1 0 [.int]).1
+     let s2 := (instAtR rawResolver s1 1 0 [.int]).1
+     (Model.Gen.writeOut s2 0 0 .string, Model.Gen.writeOut s2 1 0 .string)) = (Out.rejected, Out.accepted) ∧
+    Spec.Gen.run [box] [.instAt 1 0 [.int], .instAt 1 0 [.int], .write 0 0 .string, .write 1 0 .string] =
+      [.created 0, .created 1, .rejected, .rejected] := by decide
+
+/-! ### E. the type checks -/
+
+/-- **Generic.** A well-formed site rejects exactly when the effective type under the receiver object's own
+instantiation refuses the value (`Model.Gen.writeOut`; for a parameter `null` passes: `callOut`), whatever
+the executing node may have kept. -/
+theorem C19_sites_generic (s : Site) (hok : s.ok = true) (own kept : Option Ty) (extra : Bool) (v : Val) :
+    s.rejected own kept extra v =
+      match s.kind with
+      | .prop => !(check own v)
+      | .param => (v != .null && !(check own v)) := by
+  cases hk : s.kind with
+  | prop => exact site_prop s hok hk own kept extra v
+  | param => exact site_param s hok hk own kept extra v
+
+theorem C19_sites_obligation :
+    Generated.C19.objectLookup.ok = true ∧ Generated.C19.sites.all Site.ok = true ∧
+    Generated.C19.sites.any (·.kind == .prop) = true ∧ Generated.C19.sites.any (·.kind == .param) = true := by
+  decide
+
+/-- **Negation witness** (seed `C19-property-write-site-cache`): a site that takes the declaration from the
+node answers by what the node kept — `Box<string>` member ← int passes when the site last saw `Box<int>`. -/
+theorem C19_site_cache_witness :
+    let s : Site := ⟨"call_object_property.go", "CallObjectProperty.SetValue", .prop, .nodeState, [.typeNotNil, .notIs], true⟩
+    s.ok = false ∧ s.rejected (some .string) (some .int) false .int = false ∧ check (some .string) .int = false := by
+  decide
+
+/-! ### D. the written type argument -/
+
+/-- **Generic.** Names compared through `q` (`q = id`: `==`; `q = lower-case`: `EqualFold`): normalising the
+written argument with `f` leaves acceptance as written iff `f` keeps every name in its comparison class. -/
+theorem C19_type_argument_commutes_iff {N Q : Type} (q : N → Q) (f : N → N) :
+    (∀ a d, q (f a) = q d ↔ q a = q d) ↔ ∀ a, q (f a) = q a := commutes_iff_class q f
+
+/-- **Generic.** Argument normalised with `f`, class name of the value with `g`: acceptance is equality of
+the written names iff `f` and `g` agree and are injective. -/
+theorem C19_type_argument_injective_iff {N : Type} (f g : N → N) :
+    (∀ a d, f a = g d ↔ a = d) ↔ ((∀ a, f a = g a) ∧ ∀ x y, g x = g y → x = y) := commutes_iff_injective f g
+
+/-- **Generic.** Well-formed name facts: whatever the wrappers mean, the specialised type for a written class
+name accepts exactly the objects whose class name is that name (`Ty.accepts (.cls n) (.obj m) = (n == m)`),
+and the loop of `resolveClass` is `Model.Gen.buildMap`. -/
+theorem C19_names_generic (arg parse : List NameStep) (cmps : List NameCmp) (loop : BuildLoop) (dflt : Bool)
+    (h : NamesWF arg parse cmps loop dflt = true) {N : Type} [DecidableEq N] (sem : NameStep → N → N) (a d : N)
+    (args : List Ty) (ps : List Nat) :
+    acceptsName (fun n => n) (applyChain sem (parse ++ arg)) a d = (a == d) ∧
+    buildMapIx (fun k => k) args ps 0 GMap.empty = buildMap ps args GMap.empty := by
+  simp only [NamesWF, Bool.and_eq_true, List.isEmpty_iff] at h
+  obtain ⟨⟨⟨⟨⟨⟨⟨⟨⟨ha, hp⟩, _⟩, _⟩, _⟩, _⟩, _⟩, _⟩, _⟩, _⟩ := h
+  subst ha; subst hp
+  exact ⟨rfl, by simpa using buildMapIx_id args ps 0 GMap.empty⟩
+
+/-- **Obligation.** -/
+theorem C19_names_obligation :
+    NamesWF Generated.C19.argChain Generated.C19.parseChain Generated.C19.nameCmps Generated.C19.buildLoop
+      Generated.C19.baseDefaultIsClassOfArg = true := by decide
+
+/-- **Obligation.** `data.NewBaseType` maps the scalar names of the model to the types `Ty.accepts` mirrors. -/
+theorem C19_base_types_obligation :
+    Generated.C19.baseTypes.lookup "int" = some "Int{}" ∧ Generated.C19.baseTypes.lookup "string" = some "String{}" ∧
+    Generated.C19.baseTypes.lookup "array" = some "Arrays{}" := by decide
+
+/-- **Negation witness** (seed `C19-type-argument-lowercased`): `strings.ToLower` on the argument while
+`Class.Is` compares with `==` — `Box<Item>` refuses an `Item`; the same wrapper would be consistent with a
+case-folding comparison. -/
+theorem C19_lowercased_argument_witness :
+    NamesWF [.lower] [] Generated.C19.nameCmps Generated.C19.buildLoop true = false ∧
+    acceptsName (fun n : Name => n) (applyChain charSem [.lower]) ['I', 't', 'e', 'm'] ['I', 't', 'e', 'm'] = false ∧
+    acceptsName (fun n : Name => n) (applyChain charSem []) ['I', 't', 'e', 'm'] ['I', 't', 'e', 'm'] = true ∧
+    acceptsName lowerName (applyChain charSem [.lower]) ['I', 't', 'e', 'm'] ['I', 't', 'e', 'm'] = true := by
+  decide
+
+/-- … in the form of `C19_type_argument_commutes_iff`: lower-casing does not commute with `==`. -/
+theorem C19_lowercasing_breaks_identity : ¬ ∀ a d : Name, (lowerName a = d ↔ a = d) := by
+  intro h
+  have := (commutes_iff_class (fun n : Name => n) lowerName).1 h ['I']
+  revert this
+  decide
+
+/-- **Negation witness**: arguments read in reverse (`n.T[len-1-i]`) give `Pair<int,string>` the map of
+`Pair<string,int>`. -/
+theorem C19_reversed_arguments_witness :
+    ((buildMapIx (fun k => 1 - k) [.int, .string] [0, 1] 0 GMap.empty).map (fun m => (m.get 0, m.get 1)),
+     (buildMap [0, 1] [.int, .string] GMap.empty).map (fun m => (m.get 0, m.get 1))) =
+      (some (some .string, some .int), some (some .int, some .string)) := by decide
+
+/-! ### Non-vacuity: the generic theorems at the regenerated tables -/
+
+example : trunOf Generated.C19.classFields box [.lookup 0 0, .clone (GMap.empty.set 0 .int), .lookup 1 0] =
+    [some (some none), none, some (some (some .int))] := by decide
+example : cloneRunOf Generated.C19.cloneReturns sortedKey [[.int, .string], [.string, .int]] =
+    [[.int, .string], [.string, .int]] := by decide
+example : Generated.C19.resolvers.all Resolver.ok = true := by decide
+example : nodeRuns rawResolver (0 : Nat) 1 3 none = [1, 0, 0] := by decide
+example : Generated.C19.sites.isEmpty = false ∧ Generated.C19.nameCmps.isEmpty = false := by decide
+
+end Tie
 
 end C19
